@@ -34,6 +34,13 @@ GRAINS = {"GRAIN0": ("GRAIN0", False, 0, 0), "GRAIN": ("GRAIN", False, 0, 0), "G
 # (not part of the pool the random networks draw from: a grain next to ice of another population is refused by the network itself)
 
 
+# isotopologues (element list extended by 13C, 15N) as gas, as ice of population 0 and as ice of population 1: the name of the ice on
+# population 1 starts with the population's digit followed by the isotope's digits
+ISO = {"13CO": ("13CO", False, 0, 0), "#13CO": ("13CO", True, 0, 0), "#113CO": ("13CO", True, 1, 0), "15NH3": ("15NH3", False, 0, 0),
+       "#15NH3": ("15NH3", True, 0, 0), "#115NH3": ("15NH3", True, 1, 0), "#1CO": ("CO", True, 1, 0)}
+ISO_ELEMENTS = ["13C", "15N"]
+
+
 def key_of(name: str, base: str) -> str:
     """identity of the species apart from its spelling"""
     return "GRAIN" if name in GRAINS else base
@@ -59,7 +66,7 @@ UPPER_BY_REPLACED = {v[4]: v for v in POOL_UPPER.values()}
 def attrs(name, upper=False):
     if upper:
         return (POOL_UPPER.get(name) or UPPER_BY_REPLACED[name])[:4]
-    return POOL.get(name) or GRAINS.get(name) or ELECTRON[name]
+    return POOL.get(name) or GRAINS.get(name) or ISO.get(name) or ELECTRON[name]
 
 
 def gen_upper_case(rng: random.Random):
@@ -112,6 +119,14 @@ def build(case):
         Species.set_known_pseudoelements(list(UPPER_PSEUDO))
         if case.get("replacement"):
             Species._replacement = dict(UPPER_REPLACEMENT)      # as `naunet render` installs the [chemistry.element] replacement table
+    from naunet import chemistrydata
+    chemistrydata.user_binding_energy.clear()
+    if case.get("isotopes"):
+        # (the built-in binding energies know the main isotopologues only)
+        chemistrydata.update_binding_energy({"#13CO": 1150.0, "#113CO": 1150.0, "#15NH3": 5534.0, "#115NH3": 5534.0})
+        kw = {"elements": list(Species.default_elements) + ISO_ELEMENTS, "pseudo_elements": list(Species.default_pseudoelements)}
+        Species.set_known_elements(list(kw["elements"]))
+        Species.set_known_pseudoelements(list(kw["pseudo_elements"]))
     if not case["incremental"]:
         return Network([mk(r, p) for r, p in case["reactions"]], required_species=case["required"], **kw)
     net = Network(required_species=case["required"], **kw)
@@ -326,6 +341,14 @@ def main(ctx: Ctx) -> int:
             traces.append(make_trace(ctx, len(traces) + 1, bcase, build(bcase), n + 101 + len(traces)))
         except Exception as e:  # noqa
             ctx.violation(f"C09|Render|{type(e).__name__}|grain spellings", f"{type(e).__name__}: {e}", {"case": bcase})
+    # isotopologue ices on two populations
+    for icase in ({"reactions": [(["13CO"], ["#13CO"]), (["13CO"], ["#113CO"]), (["CO"], ["#1CO"]), (["CO"], ["#CO"]), (["15NH3"], ["#15NH3"]), (["15NH3"], ["#115NH3"]),
+                                 (["#113CO"], ["13CO"]), (["H", "H"], ["H2"])], "required": [], "incremental": False, "isotopes": True},
+                  {"reactions": [(["13CO"], ["#113CO"]), (["13CO"], ["#13CO"]), (["#115NH3"], ["15NH3"])], "required": ["#15NH3", "#1CO"], "incremental": True, "isotopes": True}):
+        try:
+            traces.append(make_trace(ctx, len(traces) + 1, icase, build(icase), n + 201 + len(traces)))
+        except Exception as e:  # noqa
+            ctx.violation(f"C09|Render|{type(e).__name__}|isotopologue ices", f"{type(e).__name__}: {e}", {"case": icase})
     # two grain populations: the element table (recorded finding when it fails)
     gcase = {"reactions": [(["GRAIN1", "e-"], ["GRAIN1-"]), (["GRAIN2", "e-"], ["GRAIN2-"]), (["H", "H"], ["H2"])], "required": [], "incremental": False}
     POOL.update({"GRAIN1": ("GRAIN1", False, 0, 0), "GRAIN1-": ("GRAIN1", False, 0, -1), "GRAIN2": ("GRAIN2", False, 0, 0), "GRAIN2-": ("GRAIN2", False, 0, -1)})
